@@ -127,7 +127,7 @@ def polyzero(name, v, hyps=()):
     """v == 0 as polynomial identity (both components for complex)"""
     v = lift(v)
     ts = [v.re.t, v.im.t] if isinstance(v, C) else [v.t]
-    g = z3.And(*[z3.simplify(t, som=True) == 0 for t in ts])
+    g = z3.And(*[z3.simplify(t, som=True, som_blowup=10000000) == 0 for t in ts])
     return solve.prove(name, g, hyps)
 
 
